@@ -247,6 +247,10 @@ def scenarios(tier: str) -> List[Dict[str, Any]]:
             for lat in (0, 400_000):
                 out.append({"start_us": start, "horizon_min": hz, "latency_us": lat, "level": 0,
                             "sources": [{"kind": "label", "schedules": list(st)}, {"kind": "list", "schedules": [alpha[1]]}]})
+        # the process' local zone (naive now() used for the sleep) must not matter
+        for st in [(alpha[0], alpha[8]), (alpha[2], alpha[4], alpha[3])]:
+            out.append({"start_us": start, "horizon_min": hz, "latency_us": 0, "level": 0, "local_offset_min": 330,
+                        "sources": [{"kind": "list", "schedules": list(st)}]})
         # level 1 (two timers in one iteration) on boundary one-shots
         for s in alpha[6:10]:
             out.append({"start_us": start, "horizon_min": hz, "latency_us": 400_000, "level": 1,
